@@ -638,6 +638,7 @@ class SReal:
 
 
 LOG10 = z3.Function("log10", z3.RealSort(), z3.RealSort())
+POW10 = z3.Function("pow10", z3.RealSort(), z3.RealSort())
 
 
 class SInt:
